@@ -471,8 +471,9 @@ def run_job(job):
           "pushes": 0, "lib_deliveries": 0, "completed": 0, "requests": 0, "out": 0, "max_same": 0,
           "instances": None, "sample": None, "wall": 0.0, "outcome_kinds": {}}
     t0 = time.time()
+    probe = {0, len(pats) // 3, len(pats) // 2, (2 * len(pats)) // 3, len(pats) - 1}
     for k, pat in enumerate(pats):
-        r = run_scenario(drv_cls, cfg, pat, check_instances=(k == len(pats) - 1))
+        r = run_scenario(drv_cls, cfg, pat, check_instances=(k in probe))
         st["exec"] += 1
         st["events"] += r.events
         st["outcome_kinds"][r.outcome] = st["outcome_kinds"].get(r.outcome, 0) + 1
@@ -484,7 +485,7 @@ def run_job(job):
         if r.outcome == "horizon":
             st["horizon"] += 1
         if r.instances is not None:
-            st["instances"] = sorted(set(drv_cls.covers) & r.instances)
+            st["instances"] = sorted(set(st["instances"] or []) | (set(drv_cls.covers) & r.instances))
         st["outcomes"].add(digest((r.trace[:400], r.outcome)))
         if len(pat) >= 2 and (r.tie or r.overlap):
             st["nontriv"] += 1
